@@ -2,11 +2,12 @@
 # usage: tools/eval_seed.sh C07 [check-id ...]   - evaluate a seeded change living in /tmp/seed/<id> against demo + our checks
 ID=$1; shift
 CHECKS=${*:-$ID}
-WT=/tmp/seed/$ID; OUT=/tmp/seed/out_$ID
+ROOT=${SEEDROOT:-/tmp/seed}
+WT=$ROOT/$ID; OUT=$ROOT/out_$ID
 echo "== $ID: diff stat"; git -C $WT diff --stat | tail -3
-echo "== demo WITH change (expect exit 1)"; (cd $WT && PYTHONPATH=$WT/src timeout 300 /venv/bin/python $OUT/demo.py >/tmp/seed/demo_$ID.with 2>&1; echo "exit=$?"; tail -3 /tmp/seed/demo_$ID.with | cut -c1-200)
-echo "== demo WITHOUT change (expect exit 0)"; (cd /repo && PYTHONPATH=/repo/src timeout 300 /venv/bin/python $OUT/demo.py >/tmp/seed/demo_$ID.without 2>&1; echo "exit=$?")
+echo "== demo WITH change (expect exit 1)"; (cd $WT && PYTHONPATH=$WT/src timeout 300 /venv/bin/python $OUT/demo.py >$ROOT/demo_$ID.with 2>&1; echo "exit=$?"; tail -3 $ROOT/demo_$ID.with | cut -c1-200)
+echo "== demo WITHOUT change (expect exit 0)"; (cd /repo && PYTHONPATH=/repo/src timeout 300 /venv/bin/python $OUT/demo.py >$ROOT/demo_$ID.without 2>&1; echo "exit=$?")
 for C in $CHECKS; do
   echo "== our check $C against the change (expect exit 1)"
-  (cd /verif && VERIF_PYHF_SRC=$WT/src ./check $C --tier quick --no-evidence > /tmp/seed/check_${ID}_$C.log 2>&1; echo "exit=$?"; grep -v condarc /tmp/seed/check_${ID}_$C.log | grep "signature\|^\[" | cut -c1-220 | head -8)
+  (cd /verif && VERIF_PYHF_SRC=$WT/src ./check $C --tier quick --no-evidence > $ROOT/check_${ID}_$C.log 2>&1; echo "exit=$?"; grep -v condarc $ROOT/check_${ID}_$C.log | grep "signature\|^\[" | cut -c1-220 | head -8)
 done
